@@ -40,7 +40,8 @@ def _p(files, props, facts=()):
 REGISTRY = {
     "C03": dict(**_p(["Proofs/C03Proofs.v"], ["Props/C03.v"], ["Consts"]),
                 theorems=["C03_statement_holds"],
-                corr=["cap", "opt", "constraints", "production", "limiting"],
+                corr=["cap", "opt", "constraints", "production", "limiting",
+                      "init.inv_duration", "init.tech", "init.mask", "init.stock", "init.X0"],
                 monitors=[M.mon_c03]),
     "C04": dict(**_p(["Proofs/C04Proofs.v"], ["Props/C04.v"], ["Layout"]),
                 theorems=["C04_statement_holds"],
@@ -48,15 +49,16 @@ REGISTRY = {
                 monitors=[M.mon_c04]),
     "C05": dict(**_p(["Proofs/C05Proofs.v"], ["Props/C05.v"]),
                 theorems=["C05_accounting_holds", "C05_crash_holds", "C05_infinite_holds"],
-                corr=["stock.update", "stock.crash", "stock.infinite", "deliver.matrix", "production"],
+                corr=["stock.update", "stock.crash", "stock.infinite", "deliver.matrix", "production",
+                      "init.stock", "init.tech", "init.inv_duration"],
                 monitors=[M.mon_c05]),
     "C06": dict(**_p(["Proofs/C06Proofs.v"], ["Props/C06.v"], ["Divide"]),
                 theorems=["C06_statement_holds"],
-                corr=["orders"],
+                corr=["orders", "init.restoration", "init.inv_duration", "init.zdist", "init.Z0", "init.tech", "init.X0"],
                 monitors=[M.mon_c06]),
     "C14": dict(**_p(["Proofs/C14Proofs.v"], ["Props/C14.v"], ["Phases"]),
                 theorems=["C14_bounds_holds", "C14_rise_holds", "C14_scarcity_holds"],
-                corr=["overprod"],
+                corr=["overprod", "init.scalars"],
                 monitors=[M.mon_c14]),
 }
 
@@ -125,7 +127,7 @@ REGISTRY.update({
                 corr=[], monitors=[], extra=X.extra_c17, no_suite=True),
     "C18": dict(**_p(["Proofs/C18Proofs.v"], ["Props/C18.v"], ["Consts"]),
                 theorems=["C18_psi1_holds", "C18_alt_noalt_holds"],
-                corr=["constraints", "orders", "production"], monitors=[], extra=X.extra_c18),
+                corr=["constraints", "orders", "production", "init.restoration", "init.inv_duration", "init.scalars"], monitors=[], extra=X.extra_c18),
     "C19": dict(**_p(RUN_FILES + ["Spec/StatementsShift.v", "Proofs/C19Aux.v", "Proofs/C19Proofs.v"], ["Props/C19.v"], ["Phases"]),
                 theorems=["C19_step_equivariant_holds", "C19_shift_holds"],
                 corr=["sched.status", "rec.status", "overprod"], monitors=[], extra=X.extra_c19),
